@@ -57,6 +57,7 @@ structure Helper where
   bracketValidator : Bool := false
   hints : List (Char × Text) := []
   bracketHl : Bool := false
+  hintPanicAt : Option Nat := none
 
 def parseHelper (s : String) : Option (Option Helper) :=
   if s == "-" then some none
@@ -80,6 +81,9 @@ def parseHelper (s : String) : Option (Option Helper) :=
           | [c, t] => do pure (Char.ofNat (← c.toNat?), ← parseText t)
           | _ => none)
         pure { h with hints := h.hints ++ items }
+      else if part.startsWith "Ph=" then do
+        let k ← (part.drop 3).toString.toNat?
+        if k == 0 then none else pure { h with hintPanicAt := some k }
       else if part == "M" then pure { h with bracketHl := true }
       else none) {}
     pure (some h)
@@ -117,6 +121,7 @@ def mkCfg (vi : Bool) (cols : Nat) (flags : String) (hist : List Text) (h : Opti
   | none => base
   | some h =>
     { base with
+      hinterPanicAt := h.hintPanicAt
       completer := fun line pos =>
         match h.cands with
         | none => (0, [])
